@@ -21,7 +21,7 @@ import subprocess
 import sys
 import tempfile
 
-SCRATCH = "/tmp/mut1"
+SCRATCH = os.environ.get("AU_SCRATCH", "/tmp/mut1")
 VERIF = os.path.dirname(os.path.abspath(__file__))
 
 
